@@ -16,7 +16,7 @@ META = {
              "points and one experiment repetition; distinct by input hash; non-trivial = the list contains a 0 or a 1 and another value"),
     "assumptions": ["both sides are library code; the oracle is their agreement as stated (heralded, stabilizer+projected, calibration, cycle length; 0-round exception)"],
     "floors": {
-        "quick": {"experiments": 380, "order_kernel_first": 80, "long_round_blocks": 3, "prior_kernel_same_rounds": 120, "all_qubits_queried_first": 120, "order_kernel_between_two_circuits": 80, "ancillas_compared": 600, "zero_round_blocks": 80, "one_round_blocks": 80},
+        "quick": {"experiments": 380, "order_kernel_first": 80, "long_round_blocks": 3, "custom_index_maps": 30, "prior_kernel_same_rounds": 120, "all_qubits_queried_first": 120, "order_kernel_between_two_circuits": 80, "ancillas_compared": 600, "zero_round_blocks": 80, "one_round_blocks": 80},
         "thorough": {"experiments": 3900, "ancillas_compared": 6000, "zero_round_blocks": 800, "one_round_blocks": 800},
     },
 }
@@ -28,7 +28,7 @@ def plan(tier: str, seed: int) -> List[Dict[str, Any]]:
 
 
 def gen_input(rng: random.Random) -> Dict[str, Any]:
-    inp = libgen.gen_repcode_input(rng, max_distance=4, max_cycles=6, constructors=("full",), ancilla_states=False)
+    inp = libgen.gen_repcode_input(rng, max_distance=4, max_cycles=6, constructors=("full",), ancilla_states=False, custom_index_p=0.4)
     length = rng.randint(1, 4)
     inp["rounds"] = rng.sample(range(0, 7), length)
     if rng.random() < 0.5 and length >= 2:
@@ -47,6 +47,8 @@ def check_input(inp: Dict[str, Any], acc: Acc):
     from qce_circuit.structure.acquisition_indexing.intrf_stabilizer_index_kernel import StateKey
     from qce_circuit.structure.intrf_acquisition_operation import AcquisitionTag
     case = {"library": inp}
+    if inp.get("index_map"):
+        acc.count("custom_index_maps")
     rounds = inp["rounds"]
     description = libgen.description_of(inp)
     ids_before = ([q.id for q in description.data_qubit_ids], [q.id for q in description.ancilla_qubit_ids])
